@@ -10,6 +10,7 @@ def check(rep):
     from . import evalrules as ER
     ER.rule_call_forwards(ctx, rid="C14.EVALUATOR-FORWARDS", no_try=True)
     PR.rule_layouts_agree(ctx)
+    PR.rule_depth_unbounded(ctx)
     PR.rule_header_imports(ctx)
     info = PR.rule_one_generator(ctx)
     exps = {k: v.get("expose") for k, v in info.items()}
